@@ -15,8 +15,9 @@ RULE = ("all link expressions K + k1*(Li-Lj) [+ k2*(Lm-Ln)] over three labels wi
         "image = reference layout at that base (with a '.word a, c' read-back). Genuinely self-dependent bases, a second '.link' (same "
         "or other file) and '.link' after a leading '. =' must fail with an error. With the base set: '. = .+n' for every n in 0..64 "
         "(constant, decimal, forward-defined) zero-fills n bytes, '. = X' absolute forward, '. = .-n' n in 1..8 and lower absolute "
-        "targets must fail. state = program; transition = one placement/spelling step; non-trivial = distinct program text")
-ASSUMPTIONS = ["label offsets of the fixed three-label layout (0, 6, 10) are known by construction", "a non-leading '. =' without an earlier base and '.link' inside an included file are left open by the property and not generated"]
+        "targets must fail. The directive inside '.repeat' blocks (count 1, count defined at the end, nested); included files with base "
+        "directives of their own under three placements of the parent's base (differential). state = program; transition = one placement/spelling step; non-trivial = distinct program text")
+ASSUMPTIONS = ["label offsets of the fixed three-label layout (0, 6, 10) are known by construction", "a non-leading '. =' without an earlier base is left open by the property and not generated; base directives inside an included file are generated only under a differential oracle (the placement of the parent's base must not matter), their meaning is not demanded"]
 K = 0o2000
 # how the six bytes between the labels a and b come about: a constant-size statement, a size known later, '.repeat' blocks with a
 # literal and with a later-defined count, an included file, and an included file (the very first statement unless the directive
@@ -87,7 +88,7 @@ def layout(base, deferred):
     return body, b"\x00" * 6 + b"\x01\x00\x02\x00" + b"\xa0\x00" + bytes([base & 255, (base >> 8) & 255, (base + 10) & 255, ((base + 10) >> 8) & 255])
 
 
-def make_program(directive, pos, deferred, symform, expr, colon=":"):
+def make_program(directive, pos, deferred, symform, expr, colon=":", wrap=None):
     """directive: '.link' or '. ='; pos 0..3 (before a, between a/b, between b/c, after everything)"""
     lines = []
     e = expr
@@ -99,6 +100,15 @@ def make_program(directive, pos, deferred, symform, expr, colon=":"):
         post_defs.append("lk = " + expr)
         e = "lk"
     d = "%s %s" % (directive, e) if directive == ".link" else ". = %s" % e
+    if wrap == "repeat1":
+        d = ".repeat 1 { %s }" % d
+    elif wrap == "repeat-fwd":
+        # the block is assembled only when its count is known, i.e. after everything else has been visited
+        d = ".repeat rc1 { %s }" % d
+        post_defs.append("rc1 = 1")
+    elif wrap == "repeat-nested":
+        d = ".repeat rc1 { .repeat 1 { %s } }" % d
+        post_defs.append("rc1 = 1")
     first = {False: "a%s .blkb 6", True: "a%s .blkb n6", "rep": "a%s .repeat 3 { .word 0 }", "repfwd": "a%s .repeat n3 { .word 0 }",
              "repbyte": "a%s .repeat n6 { .byte 0 }", "inc": "a%s .include \"six.mac\"", "inclabel": "%s.include \"inca.mac\""}[deferred]
     stm = [first % (colon if deferred != "inclabel" else ""), "b%s .word 1, 2" % colon, "c%s nop" % colon, ".word a, c"]
@@ -126,6 +136,8 @@ def cases(tier):
     for i in range(0, len(ex), 12):
         yield {"k": "exprs", "lo": i, "hi": i + 12}
     yield {"k": "bad"}
+    yield {"k": "blocks"}
+    yield {"k": "include-own-base"}
     yield {"k": "second"}
     yield {"k": "twofiles"}
     yield {"k": "skips"}
@@ -179,6 +191,63 @@ def check(case, r, tier):
                             fam = "%s-pos%d-%s%s" % ("link" if directive == ".link" else "dot", pos, symform,
                                                      "" if deferred is False else "-deferredsize" if deferred is True else "-" + deferred)
                             judge_ok(r, text, [("p.mac", text)], base, image, text, fam)
+        return
+    if k == "blocks":
+        # the directive inside a '.repeat' block (run once), also one whose count is defined at the end of the file
+        ex = [("%o" % K, K), ("%o+c-a" % K, K + 10), ("%o-<c-b>" % K, K - 4), ("c-a+%o" % K, K + 10)]
+        for expr, val in ex:
+            base = val & 0xFFFF
+            _b, image = layout(base, False)
+            for wrap in ("repeat1", "repeat-fwd", "repeat-nested"):
+                for directive in (".link", ". ="):
+                    for pos in ((0, 1, 2, 3) if directive == ".link" else (0,)):
+                        for symform in ("direct", "before", "after"):
+                            for deferred in (False, True, "repfwd"):
+                                text = make_program(directive, pos, deferred, symform, expr, wrap=wrap)
+                                judge_ok(r, text, [("p.mac", text)], base, image, text, "%s-in-%s-pos%d-%s" % ("link" if directive == ".link" else "dot", wrap, pos, symform))
+        for expr in BAD[:6]:
+            for wrap in ("repeat1", "repeat-fwd"):
+                for directive in (".link", ". ="):
+                    text = make_program(directive, 0, False, "direct", expr, wrap=wrap)
+                    judge_fail(r, [("p.mac", text)], text, "self-dependent-in-block", "the base depends on itself (%s) and must be refused" % expr)
+        return
+    if k == "include-own-base":
+        # an included file that carries a base directive of its own: what that means is not C12's business, but where the *parent*
+        # states its base (first line, last line, leading '. =') must not matter - the three placements denote the same program
+        incs = [". = 3000\nx: .word .\n.word x\n", ".link 3000\nx: .word .\n.word x\n", "x: .word .\n. = 3000\n.word x\n", "x: .word .\n.link 3000\n.word x\n",
+                ". = . + 4\nx: .word x\n", ". = x\nx: .word 1\n", ".link 3000+e-x\nx: .word 1, 2\ne: .word x\n", "nop\n. = .+2\nx: .word x\n", "x: .word x\n"]
+        parents = ["%s.word 1\n.include \"ib.mac\"\n.word .\n%s", "%s.include \"ib.mac\"\n.word .\n%s", "%s.word 1\n.include \"ib.mac\"\n%s", "%sq: .byte 1\n.include \"ib.mac\"\n.even\n.word q, .\n%s"]
+        for inc in incs:
+            for par in parents:
+                outs = {}
+                for place, (pre, post) in (("link-first", (".link 2000\n", "")), ("dot-first", (". = 2000\n", "")), ("link-last", ("", ".link 2000\n"))):
+                    text = par % (pre, post)
+                    o = driver.assemble([("p.mac", text)], tree={"ib.mac": inc})
+                    r.states += 1
+                    r.trans += 1
+                    r.ran(o.cls(), key=("include-own-base", inc, par, place))
+                    outs[place] = (o, text)
+                    if o.status in ("crash", "hang", "silent-fail"):
+                        r.violation("include-own-base:" + o.cls(), "included file with a base directive of its own", {"k": "tree-prog", "text": text, "tree": {"ib.mac": inc}}, None, o.brief())
+                ks = {p: (o.status, o.base, o.code, tuple(sorted(set(o.error_kinds())))) for p, (o, _t) in outs.items()}
+                if len(set(ks.values())) > 1:
+                    a, b = sorted(ks, key=lambda p: repr(ks[p]))[0], sorted(ks, key=lambda p: repr(ks[p]))[-1]
+                    r.violation("include-own-base:parent-base-placement-changes-result:%s-vs-%s" % (ks[a][0], ks[b][0]),
+                                "the same program with the parent's base stated as %s and as %s gives different results" % (a, b),
+                                {"k": "tree-pair", "a": outs[a][1], "b": outs[b][1], "tree": {"ib.mac": inc}}, outs[a][0].brief(), outs[b][0].brief())
+        return
+    if k == "tree-pair":
+        a = driver.assemble([("p.mac", case["a"])], tree=case["tree"])
+        b = driver.assemble([("p.mac", case["b"])], tree=case["tree"])
+        r.ran(a.cls(), key=None)
+        if (a.status, a.base, a.code, tuple(sorted(set(a.error_kinds())))) != (b.status, b.base, b.code, tuple(sorted(set(b.error_kinds())))):
+            r.violation("include-own-base:parent-base-placement-changes-result:replay", "different results", case, a.brief(), b.brief())
+        return
+    if k == "tree-prog":
+        o = driver.assemble([("p.mac", case["text"])], tree=case["tree"])
+        r.ran(o.cls(), key=None)
+        if o.status in ("crash", "hang", "silent-fail"):
+            r.violation("include-own-base:" + o.cls(), "replay", case, None, o.brief())
         return
     if k == "bad":
         for expr in BAD:
